@@ -1023,4 +1023,242 @@ theorem segs_diag (old : List α) (x : α) (d : Nat) :
     rw [this]
     exact ih (k + 1) (by omega)
 
+
+/-! ## Part G: the breadth-first search terminates (completeness) -/
+
+theorem followSnake_pos_indep (old new : List α) (x y : Nat) (tr : Trace) :
+    ∀ tr', (followSnake old new x y tr).1 = (followSnake old new x y tr').1 ∧
+      (followSnake old new x y tr).2.1 = (followSnake old new x y tr').2.1 := by
+  fun_induction followSnake old new x y tr with
+  | case1 x y tr hx hb ih =>
+    intro tr'
+    rw [followSnake.eq_def old new x y tr']
+    simp only [hx, ↓reduceDIte, hb, ↓reduceIte]
+    exact ih _
+  | case2 x y tr hx b hb hne =>
+    intro tr'
+    rw [followSnake.eq_def old new x y tr']
+    simp [hx, hb, hne]
+  | case3 x y tr hx hb =>
+    intro tr'
+    rw [followSnake.eq_def old new x y tr']
+    simp [hx, hb]
+  | case4 x y tr hx =>
+    intro tr'
+    rw [followSnake.eq_def old new x y tr']
+    simp [hx]
+
+/-- End point of the snake that starts at `(x, y)`. -/
+def snakeEnd (old new : List α) (x y : Nat) : Nat × Nat :=
+  ((followSnake old new x y []).1, (followSnake old new x y []).2.1)
+
+theorem followSnake_key (old new : List α) (x y : Nat) (tr : Trace) :
+    ((followSnake old new x y tr).1, (followSnake old new x y tr).2.1) = snakeEnd old new x y := by
+  have := followSnake_pos_indep old new x y tr []
+  simp only [snakeEnd, this.1, this.2]
+
+def hasKey (v : Visited) (k : Nat × Nat) : Prop := ∃ t, (k, t) ∈ v
+
+theorem lookupV_isSome_iff (v : Visited) (k : Nat × Nat) : (lookupV v k).isSome = true ↔ hasKey v k := by
+  constructor
+  · intro h
+    cases hl : lookupV v k with
+    | none => simp [hl] at h
+    | some t => exact ⟨t, lookupV_some hl⟩
+  · intro ⟨t, ht⟩
+    unfold lookupV
+    simp only [Option.isSome_map, List.find?_isSome]
+    exact ⟨(k, t), ht, by simp⟩
+
+theorem lookupV_none_iff (v : Visited) (k : Nat × Nat) : lookupV v k = none ↔ ¬ hasKey v k := by
+  rw [← lookupV_isSome_iff]
+  cases lookupV v k <;> simp
+
+theorem visit_spec (v : Visited) (nf : List (Nat × Nat)) (k : Nat × Nat) (t : Trace) :
+    hasKey (visit v nf k t).1 k ∧
+    (∀ k', hasKey v k' → hasKey (visit v nf k t).1 k') ∧
+    (∀ k', hasKey (visit v nf k t).1 k' → hasKey v k' ∨ k' ∈ (visit v nf k t).2) ∧
+    (∀ k' ∈ nf, k' ∈ (visit v nf k t).2) ∧
+    (∀ k' ∈ (visit v nf k t).2, k' ∈ nf ∨ hasKey (visit v nf k t).1 k') := by
+  unfold visit
+  split
+  · rename_i h
+    have hk := (lookupV_isSome_iff v k).mp h
+    exact ⟨hk, fun _ h => h, fun _ h => Or.inl h, fun _ h => h, fun _ h => Or.inl h⟩
+  · refine ⟨⟨t, by simp⟩, ?_, ?_, ?_, ?_⟩
+    · intro k' ⟨t', ht'⟩; exact ⟨t', by simp [ht']⟩
+    · intro k' ⟨t', ht'⟩
+      simp only [List.mem_cons, Prod.mk.injEq] at ht'
+      rcases ht' with ⟨rfl, _⟩ | ht'
+      · right; simp
+      · left; exact ⟨t', ht'⟩
+    · intro k' hk'; simp [hk']
+    · intro k' hk'
+      simp only [List.mem_append, List.mem_singleton] at hk'
+      rcases hk' with hk' | rfl
+      · exact Or.inl hk'
+      · right; exact ⟨t, by simp⟩
+
+theorem expand_spec (old new : List α) (fr : List (Nat × Nat)) (v : Visited) (nf : List (Nat × Nat)) :
+    (∀ k, hasKey v k → hasKey (expand old new fr v nf).1 k) ∧
+    (∀ k, hasKey (expand old new fr v nf).1 k → hasKey v k ∨ k ∈ (expand old new fr v nf).2) ∧
+    (∀ k ∈ nf, k ∈ (expand old new fr v nf).2) ∧
+    (∀ k ∈ (expand old new fr v nf).2, k ∈ nf ∨ hasKey (expand old new fr v nf).1 k) ∧
+    (∀ p ∈ fr, hasKey v p →
+      hasKey (expand old new fr v nf).1 (snakeEnd old new (p.1 + 1) p.2) ∧
+      hasKey (expand old new fr v nf).1 (snakeEnd old new p.1 (p.2 + 1))) := by
+  fun_induction expand old new fr v nf with
+  | case1 v nf =>
+    exact ⟨fun _ h => h, fun _ h => Or.inl h, fun _ h => h, fun _ h => Or.inl h, by simp⟩
+  | case2 x y fr v nf hl ih =>
+    obtain ⟨i1, i2, i3, i4, i5⟩ := ih
+    refine ⟨i1, i2, i3, i4, ?_⟩
+    intro p hp hk
+    simp only [List.mem_cons] at hp
+    rcases hp with rfl | hp
+    · exact absurd hk ((lookupV_none_iff v _).mp hl)
+    · exact i5 p hp hk
+  | case3 x y fr v nf tr hl a b r1 r2 ih =>
+    obtain ⟨i1, i2, i3, i4, i5⟩ := ih
+    obtain ⟨a1, a2, a3, a4, a5⟩ := visit_spec v nf (a.1, a.2.1) a.2.2
+    obtain ⟨b1, b2, b3, b4, b5⟩ := visit_spec r1.1 r1.2 (b.1, b.2.1) b.2.2
+    have ka : (a.1, a.2.1) = snakeEnd old new (x + 1) y := followSnake_key old new (x + 1) y tr
+    have kb : (b.1, b.2.1) = snakeEnd old new x (y + 1) := followSnake_key old new x (y + 1) tr
+    refine ⟨?_, ?_, ?_, ?_, ?_⟩
+    · intro k hk; exact i1 k (b2 k (a2 k hk))
+    · intro k hk
+      rcases i2 k hk with h | h
+      · rcases b3 k h with h | h
+        · rcases a3 k h with h | h
+          · exact Or.inl h
+          · exact Or.inr (i3 k (b4 k h))
+        · exact Or.inr (i3 k h)
+      · exact Or.inr h
+    · intro k hk; exact i3 k (b4 k (a4 k hk))
+    · intro k hk
+      rcases i4 k hk with h | h
+      · rcases b5 k h with h | h
+        · rcases a5 k h with h | h
+          · exact Or.inl h
+          · exact Or.inr (i1 k (b2 k h))
+        · exact Or.inr (i1 k h)
+      · exact Or.inr h
+    · intro p hp hk
+      simp only [List.mem_cons] at hp
+      rcases hp with rfl | hp
+      · simp only
+        rw [← ka, ← kb]
+        exact ⟨i1 _ (b2 _ a1), i1 _ b1⟩
+      · exact i5 p hp (b2 p (a2 p hk))
+
+section total
+variable (old new : List α)
+
+def Good (p : Nat × Nat) : Prop := p.1 ≤ old.length ∧ p.2 ≤ new.length
+def rank (p : Nat × Nat) : Nat := (old.length - p.1) + (new.length - p.2)
+/-- the successor that certainly makes progress inside the rectangle -/
+def succN (p : Nat × Nat) : Nat × Nat :=
+  if p.1 < old.length then snakeEnd old new (p.1 + 1) p.2 else snakeEnd old new p.1 (p.2 + 1)
+
+theorem succN_good (p : Nat × Nat) (hg : Good old new p) (hne : p ≠ (old.length, new.length)) :
+    Good old new (succN old new p) ∧ rank old new (succN old new p) < rank old new p := by
+  obtain ⟨x, y⟩ := p
+  simp only [Good] at hg
+  unfold succN snakeEnd
+  simp only
+  split
+  · rename_i hx
+    have := followSnake_bounds old new (x + 1) y []
+    simp only [Good, rank]
+    have h3 := this.2.2.1 (by omega)
+    have h4 := this.2.2.2 hg.2
+    refine ⟨⟨h3, h4⟩, by omega⟩
+  · rename_i hx
+    have hxe : x = old.length := by omega
+    have hy : y < new.length := by
+      rcases Nat.lt_or_ge y new.length with h | h
+      · exact h
+      · exfalso; apply hne; simp only [Prod.mk.injEq]; omega
+    have := followSnake_bounds old new x (y + 1) []
+    simp only [Good, rank]
+    have h3 := this.2.2.1 hg.1
+    have h4 := this.2.2.2 (by omega)
+    refine ⟨⟨h3, h4⟩, by omega⟩
+
+theorem chain (v : Visited) (hnm : ¬ hasKey v (old.length, new.length)) :
+    ∀ (r : Nat) (g : Nat × Nat), rank old new g ≤ r → hasKey v g → Good old new g →
+      ∃ h, hasKey v h ∧ Good old new h ∧ rank old new h ≤ rank old new g ∧
+        h ≠ (old.length, new.length) ∧ ¬ hasKey v (succN old new h) := by
+  intro r
+  induction r with
+  | zero =>
+    intro g hr hk hg
+    exfalso; apply hnm
+    have : g = (old.length, new.length) := by
+      obtain ⟨x, y⟩ := g
+      simp only [rank, Good] at hr hg
+      simp only [Prod.mk.injEq]; omega
+    rw [← this]; exact hk
+  | succ r ih =>
+    intro g hr hk hg
+    have hne : g ≠ (old.length, new.length) := by
+      intro h; apply hnm; rw [← h]; exact hk
+    by_cases hs : hasKey v (succN old new g)
+    · obtain ⟨hg', hr'⟩ := succN_good old new g hg hne
+      obtain ⟨h, h1, h2, h3, h4, h5⟩ := ih (succN old new g) (by omega) hs hg'
+      exact ⟨h, h1, h2, by omega, h4, h5⟩
+    · exact ⟨g, hk, hg, Nat.le_refl _, hne, hs⟩
+
+/-- BFS invariant: frontier nodes are visited; a visited node inside the rectangle that is not in
+the frontier has already been expanded (its progressing successor is visited). -/
+def BInv (v : Visited) (fr : List (Nat × Nat)) : Prop :=
+  (∀ p ∈ fr, hasKey v p) ∧
+  (∀ p, hasKey v p → Good old new p → p ≠ (old.length, new.length) → p ∉ fr → hasKey v (succN old new p))
+
+theorem bfs_total (f : Nat) :
+    ∀ (v : Visited) (fr : List (Nat × Nat)), BInv old new v fr →
+      (∃ g, hasKey v g ∧ Good old new g ∧ rank old new g < f) → ∃ tr, bfs old new f v fr = some tr := by
+  induction f with
+  | zero => intro v fr _ ⟨g, _, _, h⟩; omega
+  | succ f ih =>
+    intro v fr hinv ⟨g, hk, hg, hr⟩
+    rw [bfs]
+    cases hl : lookupV v (old.length, new.length) with
+    | some t => exact ⟨_, rfl⟩
+    | none =>
+      simp only
+      have hnm := (lookupV_none_iff v _).mp hl
+      obtain ⟨h, h1, h2, h3, h4, h5⟩ := chain old new v hnm (rank old new g) g (Nat.le_refl _) hk hg
+      have hfr : h ∈ fr := by
+        apply Classical.byContradiction
+        intro hnot
+        exact h5 (hinv.2 h h1 h2 h4 hnot)
+      obtain ⟨e1, e2, e3, e4, e5⟩ := expand_spec old new fr v []
+      have hsucc : hasKey (expand old new fr v []).1 (succN old new h) := by
+        have := e5 h hfr h1
+        unfold succN
+        split
+        · exact this.1
+        · exact this.2
+      obtain ⟨hg', hr'⟩ := succN_good old new h h2 h4
+      apply ih
+      · refine ⟨?_, ?_⟩
+        · intro p hp
+          rcases e4 p hp with h | h
+          · simp at h
+          · exact h
+        · intro p hp hgp hnp hnf
+          rcases e2 p hp with hv | hv
+          · by_cases hpf : p ∈ fr
+            · have := e5 p hpf hv
+              unfold succN
+              split
+              · exact this.1
+              · exact this.2
+            · exact e1 _ (hinv.2 p hv hgp hnp hpf)
+          · exact absurd hv hnf
+      · exact ⟨succN old new h, hsucc, hg', by omega⟩
+
+end total
+
 end SamVerif.Differ
